@@ -13,8 +13,14 @@
                  ARMems (db_state.go getMems under memMu.RLock), ARVersion (session.version under vmu),
                  ARLookup (memGet on the captured buffers, then version.get on the captured version),
                  ARRelease (releaseSnapshot), ARDone
+   A reader session is any of: DB.Get / DB.Has (ARSeq ARMems [ARVersion] ARLookup ARRelease ARDone — the version is
+   not taken when a buffer holds the key), a Snapshot (ARSeq, then per read ARMems [ARVersion] ARLookup, finally
+   ARRelease ARDone), an iterator (ARSeq ARMems ARVersion ARRelease, then its scan = one ARLookup per key on the
+   captured triple, ARDone; the memdbs are captured by reference and keep growing, the version is immutable).
    Actions carry what the harness observed; `step` returns None when the observation is impossible in the
-   model, so `accepts` is trace inclusion.  Model file: definitions only (proofs in ReadCutProofs.v). *)
+   model, so `accepts` is trace inclusion.  Not modelled (other properties): the layout inside the version
+   (C01), the write lock's hand-over and merging (C10; here: one group at a time, as a precondition), memdb reuse
+   through the pool (C18), errors, Close.  Model file: definitions only (proofs in ReadCutProofs.v). *)
 From GL Require Export Lsm.Lsm.
 
 Inductive phase := PIdle | PSeq | PMems | PVer | PVerOnly.   (* PVerOnly: alternative LTS only *)
